@@ -84,7 +84,7 @@ Example C11_variant_examples :
   dollar_loop_v 2 W_tpl_v TNone [36; 40; 120; 41] [] = Ok (Some [97; 36; 49; 98], [[120]]) /\
   dollar_loop_v 2 W_ws_v TDq [112; 36; 40; 120; 41; 113] [] = Ok (Some [112; 32; 118; 32; 113], [[120]]) /\
   dollar_loop_v 2 W_ws_v TNone [112; 36; 40; 120; 41; 113] [] = Ok (Some [112; 118; 113], [[120]]).
-Proof. repeat split; [exact variant_template_kept | exact variant_dq_keeps_blanks | exact variant_unquoted_trims]. Qed.
+Proof. split; [exact variant_template_kept | split; [exact variant_dq_keeps_blanks | exact variant_unquoted_trims]]. Qed.
 
 Check C11_refuted : ~ C11_full.
 Check C11_partial : forall W head cmd tail out f,
